@@ -329,6 +329,8 @@ def monitorHist (sc : HScn) (entries : List String) : List (String × String) :=
         if m.calls.any (fun c => c.res == some "ok" && c.delivered.isNone && c.t + quiet ≤ t) then
           m := m.add "C08" "accepted-operation-not-delivered-although-nothing-holds-it-back"
           m := m.add "C01" "accepted-operation-never-delivered"
+          -- C10: with a slot limit, operations that could not get a slot stay buffered only until callbacks finish
+          if sc.c.gen == .v2 && sc.c.mcb > 0 then m := m.add "C10" "stalled-although-every-slot-is-free"
     else if kind == "sample" then
       let needs := n2
       let inbuf := n3
